@@ -34,7 +34,14 @@ theorem processBlobs_run : ∀ (blobs : List Blob) (s s' : St), processBlobs e s
     · rename_i s1 _ _ heq; rw [heq]; exact ih _ _ h
     · simp at h
 
-theorem loopRun_ok : ∀ (evs : List LoopEv) (s s' : St), loopRun e s evs = (s', .ok) →
+theorem loopExit_ok {w : Bool} {s s' : St} {out : LoopOut} (h : loopExit w s out = (s', .ok)) :
+    out = .ok ∧ s' = flushAll s := by
+  unfold loopExit at h
+  split at h
+  · simp only [Prod.mk.injEq] at h; exact ⟨h.2, h.1.symm⟩
+  · simp at h
+
+theorem loopRun_ok {w : Bool} : ∀ (evs : List LoopEv) (s s' : St), loopRun e w s evs = (s', .ok) →
     ∃ ops, (∀ op ∈ ops, LoopOp op) ∧ (run e s ops).pending = 0 ∧ s' = (step e (run e s ops) (.commit none)).1 := by
   intro evs
   induction evs with
@@ -43,32 +50,31 @@ theorem loopRun_ok : ∀ (evs : List LoopEv) (s s' : St), loopRun e s evs = (s',
     unfold loopRun at h
     split at h
     · rename_i hp
-      refine ⟨[], (fun _ h => by cases h), hp, ?_⟩
-      simp only [Prod.mk.injEq] at h
-      exact h.1.symm
+      exact ⟨[], (fun _ h => by cases h), hp, (loopExit_ok h).2⟩
     · simp at h
   | cons ev t ih =>
     intro s s' h
     unfold loopRun at h
     split at h
     · rename_i hp
-      refine ⟨[], (fun _ h => by cases h), hp, ?_⟩
-      simp only [Prod.mk.injEq] at h
-      exact h.1.symm
+      exact ⟨[], (fun _ h => by cases h), hp, (loopExit_ok h).2⟩
     · cases ev with
-      | cancel => simp at h
+      | cancel => exact absurd (loopExit_ok h).1 (by simp)
       | wake => exact ih s s' h
-      | flush =>
-        obtain ⟨ops, hops, hp, hs⟩ := ih _ s' h
-        refine ⟨.commit none :: ops, ?_, hp, hs⟩
-        intro op hop
-        rcases List.mem_cons.mp hop with rfl | hop
-        · trivial
-        · exact hops op hop
+      | flush wok =>
+        cases wok with
+        | false => simp at h
+        | true =>
+          obtain ⟨ops, hops, hp, hs⟩ := ih _ s' h
+          refine ⟨.commit none :: ops, ?_, hp, hs⟩
+          intro op hop
+          rcases List.mem_cons.mp hop with rfl | hop
+          · trivial
+          · exact hops op hop
       | response blobs gaveUp =>
         simp only at h
         split at h
-        · simp at h
+        · exact absurd (loopExit_ok h).1 (by simp)
         · rename_i hno
           simp only [Bool.or_eq_true, not_or, Bool.not_eq_true] at hno
           have hpb : processBlobs e s blobs = ((processBlobs e s blobs).1, false) := by
